@@ -926,15 +926,14 @@ func noteMismatch(key string, sample interface{}) {
 	mmMu.Unlock()
 }
 
-func runHistory(r *vf.Run, scratch string, idx int, rng *vf.RNG, nOps int) {
-	dir := filepath.Join(scratch, fmt.Sprintf("h%d", idx))
-	defer os.RemoveAll(dir)
-	env, err := iddrv.NewEnv(dir)
+func runHistory(r *vf.Run, pool *iddrv.Pool, idx int, rng *vf.RNG, nOps int) {
+	env, err := pool.Get()
 	if err != nil {
 		r.Inconclusive(fmt.Sprintf("history %d: cannot open ledger: %v", idx, err))
 		return
 	}
-	defer env.Close()
+	broken := false // set when a block commit fails or panics: the ledger is not reused
+	defer func() { pool.Put(env, broken) }()
 	h := &hist{idx: idx, rng: rng, m: iddrv.NewModel(), env: env}
 	for i := 0; i < nIDs; i++ {
 		h.ids = append(h.ids, iddrv.DetID(fmt.Sprintf("c45/%d/%d/%d", vf.Seed(), idx, i)))
@@ -971,10 +970,12 @@ func runHistory(r *vf.Run, scratch string, idx int, rng *vf.RNG, nOps int) {
 			d["panic"] = fmt.Sprint(p)
 			h.log = append(h.log, d)
 			r.Violation("panic-in-block-execution:"+op.Method, fmt.Sprint(p), witness(nil))
+			broken = true
 			return
 		}
 		if cerr != nil {
 			r.Inconclusive(fmt.Sprintf("history %d: block commit failed: %v", idx, cerr))
+			broken = true
 			return
 		}
 		ok := res[0].State == 1
@@ -1133,16 +1134,17 @@ func main() {
 	scratch := vf.Scratch("c45")
 	defer os.RemoveAll(scratch)
 
-	nHist := vf.N(300, 6000)
+	nHist := vf.N(300, 10000)
 	workers := runtime.NumCPU()
 	if workers > 16 {
 		workers = 16
 	}
 	rng := vf.NewRNG(vf.Seed())
+	pool := iddrv.NewPool(scratch, 25)
 	probeIndexZero(r, scratch)
 	vf.Parallel(nHist, workers, func(i int) {
 		hr := rng.Sub(uint64(i))
-		runHistory(r, scratch, i, hr, hr.Sub(99).Range(30, 50))
+		runHistory(r, pool, i, hr, hr.Sub(99).Range(30, 50))
 	})
 
 	var notDriven []string
@@ -1185,6 +1187,7 @@ func main() {
 	r.Assume("transaction signatures are not re-verified by block execution (the validators do that before a tx enters a block); the witness set of a transaction is the set of its signature programs' addresses")
 	r.Assume("statement-level authority = a non-revoked key with authentication right of the identity, its configured controller (single id or k-of-n group, recursively), or its configured recovery (address or group); which of them a given method consults is not judged")
 	_ = common.ADDRESS_EMPTY
+	pool.Close()
 	os.RemoveAll(scratch)
 	r.Finish()
 }
